@@ -10,6 +10,17 @@ COMMON_NOTE = ("Trusted base: pyvc engine (AST transform T1-T3 of the real sourc
                "lift to C), A3 (integer powers), A4 (path forking via z3), A5 (numpy shim contracts, listed per run in evidence.trusted_base). ")
 
 CLAIMED = {
+    "C36": dict(
+        category="exploration",
+        text=("BOUNDED stand-in, never counted as proved: the serialisation layer (numpy.save/load, lz4, YAML, tarfile) is library code outside the symbolic engine. `deal` run-time contracts "
+              "on wrappers of the real functions are evaluated natively over a stated finite input set (bounded/C36_native.py): load(save(op)) == op on the bit level (3 shapes, random and "
+              "special values incl. -0.0, inf, nan payloads, denormals, errors on/off); a header stored by Inventory.__setitem__ is read back equal by a fresh Inventory.sync for 8 kinds of scale "
+              "numbers (Python and NumPy scalars, scales one ulp apart) x 3 header types; create/close/read of whole archives (4 card variants x 0/1/3/6 points) returns the same points, bitwise-equal "
+              "arrays, equal cards and metadata; an edit session changes exactly what was assigned. One defect repaired by a fix commit (NumPy-scalar scales made archives unreadable)."),
+        note="Bounded: 66 contract evaluations, no claim beyond the stated input set. Runs the untransformed package under plain CPython (overlay venv), on a temporary directory that is removed.",
+        technique="bounded stand-in: deal run-time contracts on the real functions over an enumerated input set",
+        design_ref="DESIGN.md section 2, C36",
+    ),
     "C24": dict(
         category="proof",
         text=("With cern_polygamma replaced by its contract (polygamma in normalised form: recurrence + closed forms at integer / half-integer arguments) the real ekore.harmonics code gives: "
@@ -33,7 +44,7 @@ CLAIMED = {
         design_ref="DESIGN.md section 2, C26",
     ),
     "C37": dict(
-        category="proof",
+        category="model_checking",
         text=("Map clause by induction over the history with an EXHAUSTIVELY checked step: every state satisfying the representation invariant (disk = model with one header and one "
               "operator file per point, cache keys = model keys, loaded entries = model values) over three evolution points and two values (with / without errors; 125 states) x every "
               "operation (set, get, unload, contains, iterate, items, unload-all, close-and-reopen through the real EKO.load / Inventory.sync; 19 operations, 2375 transitions) is run on the real "
@@ -44,7 +55,7 @@ CLAIMED = {
         design_ref="DESIGN.md section 2, C37",
     ),
     "C39": dict(
-        category="proof",
+        category="model_checking",
         text=("The real mutators of eko.io (EKO.__setitem__, load_recipes, update, xgrid setter, dump to the default archive, Inventory.__setitem__ of all five inventories) and EKO.close run "
               "unmodified over a ghost file system that logs every disk-changing operation, from the states open/read-only, closed after a read-only session and closed after a regular close: "
               "every store attempt raises ReadOnlyOperator / ClosedOperator (OutputError) with NO disk operation before the refusal and leaves the access state unchanged (frame), which extends "
@@ -55,7 +66,7 @@ CLAIMED = {
         design_ref="DESIGN.md section 2, C39",
     ),
     "C38": dict(
-        category="proof",
+        category="fault_enumeration",
         text=("Exceptional postconditions of the real EKO.close / dump / __exit__, Builder.__exit__ / __post_init__ / build, Inventory.__setitem__ and InternalPaths.bootstrap, run unmodified over a "
               "ghost file system (POSIX call contracts, abstract contents): a whole 'new EKO' session (create, bootstrap, two operators, leave the context) and an 'edit' session are executed once per "
               "fault point -- EVERY disk-changing operation (18 resp. 9; pairs in the thorough tier) -- and fault-free. After any failure the archive path is absent / holds OLD completely or holds the "
